@@ -377,6 +377,15 @@ def run(check):
         jobs.append({"cfg": {"max_stream_data": 1000, "max_data": 100000, "s_max_stream_data": 1000, "s_max_data": 100000},
                      "target": tgt, "seed": 80, "loaded": False, "steps": 10,
                      "plan": [["changecid"], ["fire"], ["changecid"], ["fire"], ["ncidnew", 2], ["ciddup", 1], ["ciddup", 2], ["frame", b1, -990, 10, False, False]]})
+    # corpus: data that arrives ahead of a gap counts against the connection credit like any other (limit 500, stream limit 3000)
+    for tgt in "cs":
+        u0, b0 = (3, 1) if tgt == "c" else (2, 0)
+        small = {"max_stream_data": 3000, "max_data": 500} if tgt == "c" else {"s_max_stream_data": 3000, "s_max_data": 500}
+        base = {"max_stream_data": 1 << 20, "max_data": 1 << 20, "s_max_stream_data": 1 << 20, "s_max_data": 1 << 20}
+        for plan in ([["frame", u0, -3000 + 501, 1, False, False]],
+                     [["frame", u0, -3000 + 300, 10, False, False], ["frame", b0, -3000 + 201, 1, False, False]],
+                     [["frame", u0, -3000 + 250, 10, False, False], ["frame", b0, -3000 + 250, 10, False, False], ["frame", u0, -3000 + 260, 5, True, False]]):
+            jobs.append({"cfg": dict(base, **small), "target": tgt, "seed": 81, "loaded": False, "steps": 10, "plan": plan})
     # corpus: a MAX_STREAMS frame is declared lost by the very packet that opens a stream it allows
     for tgt in "cs":
         b1, b3 = (5, 13) if tgt == "c" else (4, 12)
